@@ -102,9 +102,10 @@ def run(chk):
         rs.append("".join(rnd.choice(WIDE) for _ in range(n)))
     # long homogeneous runs and deep nesting: sizes that no length-6 sweep reaches
     for n in (7, 33, 64, 65, 66, 100, 129):
-        rs += ["(" * n, "(" * n + "1" + ")" * n, "f(" * n + "1" + ")" * n, ")" * n, "{" * n, "1" + " + 1" * n, "1" + "^2" * min(n, 40), "-" * n, "." * n,
+        rs += ["\ufeff" + "1" * n, "(" * n, "(" * n + "1" + ")" * n, "f(" * n + "1" + ")" * n, ")" * n, "{" * n, "1" + " + 1" * n, "1" + "^2" * min(n, 40), "-" * n, "." * n,
                "1" * n, " " * n, "a " * n, "é" * n, "(1 + " * n + "1" + ")" * n, "1e" * n, "{a " * n, "round(" * n + "1.5" + ", 0)" * n,
                "1 to m " * min(n, 100), "%" * n, "," * n, "((" * (n // 2) + ")" * n]
+    rs += ["\ufeff1 + 2", "\ufeff", "\ufeff ", "1\ufeff2", "2e+", "1E-x", "7e- 3", "-e+ 1", ".5e+", " (", " 1 to", "\t{", " f(", " 2 * (", "\u00a0(("]
     rnd.shuffle(rs)      # spread the expensive deep strings over the parallel validators
     run_strings(chk, rs, "c12-random", "random strings", chunk=1000)
     chk.cov["exhaustive"] = True
